@@ -58,7 +58,9 @@ impl Binder {
         let ext_source = self.egraph.add(Node::ExtSource(Box::new(ExtSource {
             path: match target {
                 CopyTarget::File { filename } => filename.into(),
-                t => todo!("unsupported copy target: {:?}", t),
+                t => {
+                    return Err(ErrorKind::Todo(format!("copy target {t:?}")).into());
+                }
             },
             format: FileFormat::from_options(options),
         })));
